@@ -97,6 +97,10 @@ class CatSite:
 
 def ref_val(sp, q, T, P, include_ZPE=False):
     """the value the stub must contribute when it receives exactly (T, P)"""
+    if getattr(sp, 'consistent', False) and q == 'GoRT':
+        return ref_val(sp, 'HoRT', T, P) - ref_val(sp, 'SoR', T, P)
+    if getattr(sp, 'consistent', False) and q == 'FoRT':
+        return ref_val(sp, 'UoRT', T, P) - ref_val(sp, 'SoR', T, P)
     c = sp.c[q]
     v = c[0] + c[1] * T + c[2] * P
     if q == 'EoRT' and include_ZPE:
